@@ -140,9 +140,9 @@ func quickFamilies(r *explore.Run) []*wgen.Family {
 
 func baseFamilies(r *explore.Run) []*wgen.Family {
 	if r.Thorough() {
-		return []*wgen.Family{wgen.F1(), wgen.F2(3, false), wgen.F2(5, true), wgen.F2L(3, false), wgen.F2L(4, true), wgen.F4c(true), wgen.F2Mini(5, 3), wgen.F1lit()}
+		return []*wgen.Family{wgen.F1(), wgen.F2(3, false), wgen.F2(5, true), wgen.F2L(3, false), wgen.F2L(4, true), wgen.F4c(true), wgen.F2Mini(5, 3), wgen.F2Mini(4, 4), wgen.F1lit()}
 	}
-	return []*wgen.Family{wgen.F1(), wgen.F2(2, false), wgen.F2(4, true), wgen.F2L(2, false), wgen.F2L(3, true), wgen.F4c(false), wgen.F2Mini(4, 3), wgen.F1lit()}
+	return []*wgen.Family{wgen.F1(), wgen.F2(2, false), wgen.F2(4, true), wgen.F2L(2, false), wgen.F2L(3, true), wgen.F4c(false), wgen.F2Mini(4, 3), wgen.F2Mini(3, 4), wgen.F1lit()}
 }
 
 // prog is one program presented to a per-program check.
